@@ -24,6 +24,7 @@ import (
 	"context"
 	"errors"
 	"fmt"
+	"runtime"
 	"strconv"
 	"strings"
 	"sync"
@@ -138,6 +139,7 @@ func genReplStream(g *gen, n int, tier string, w *bufio.Writer) {
 				fmt.Fprintf(w, "cutctx u%d\n", i)
 				fmt.Fprintf(w, "sleep %d\n", 80+g.intn(60))
 			}
+			fmt.Fprintf(w, "flapstorm %d %d\n", 900+g.intn(300), 48)
 			fmt.Fprintf(w, "load %d %d\n", 20+g.intn(40), 10)
 			fmt.Fprintln(w, "get 0")
 			fmt.Fprintln(w, "caughtup h 6000")
@@ -429,14 +431,14 @@ func (x *rsRun) step(ws []string) string {
 		if s := x.streams[ws[1]]; s != nil {
 			sid = s.session
 		}
-		call := func() (res string) {
+		call := func(from uint64) (res string) {
 			defer func() {
 				if p := recover(); p != nil {
 					res = "panic:" + strings.ReplaceAll(fmt.Sprint(p), " ", "_")
 				}
 			}()
 			nctx := metadata.NewIncomingContext(context.Background(), metadata.Pairs("session-id", sid))
-			resp, err := x.p.NegativeAcknowledge(nctx, &rproto.Nack{MissingFromSequence: 1})
+			resp, err := x.p.NegativeAcknowledge(nctx, &rproto.Nack{MissingFromSequence: from})
 			switch {
 			case err != nil:
 				return "err"
@@ -447,7 +449,7 @@ func (x *rsRun) step(ws []string) string {
 		}
 		if ws[0] == "nack" {
 			out := make(chan string, 1)
-			go func() { out <- call() }()
+			go func() { out <- call(1) }()
 			select {
 			case r := <-out:
 				if strings.HasPrefix(r, "panic") {
@@ -460,15 +462,97 @@ func (x *rsRun) step(ws []string) string {
 			}
 		}
 		ms, _ := strconv.Atoi(ws[2])
-		go func() {
-			for dl := time.Now().Add(time.Duration(ms) * time.Millisecond); time.Now().Before(dl); {
-				if r := call(); strings.HasPrefix(r, "panic") {
-					x.note("nack-handler-panicked " + r)
-					return
+		for k := 0; k < 4; k++ {
+			go func(k int) {
+				// requests for the last entry only are cheap (and still reach the session): many are in flight when the session ends
+				last := uint64(x.nput)
+				if last == 0 {
+					last = 1
 				}
-			}
-		}()
+				for dl := time.Now().Add(time.Duration(ms) * time.Millisecond); time.Now().Before(dl); {
+					if r := call(last); strings.HasPrefix(r, "panic") {
+						x.note("nack-handler-panicked " + r)
+						return
+					}
+				}
+			}(k)
+		}
 		return "ok"
+	case "flapstorm": // flapstorm <cycles> <goroutines>: a replica's stream registers and ends again and again while retransmission
+		// requests for its CURRENT session keep arriving
+		cycles, gor := atoi(ws[1]), atoi(ws[2])
+		var cur atomic.Value
+		cur.Store("")
+		stopStorm := make(chan struct{})
+		var sg sync.WaitGroup
+		last := uint64(x.nput)
+		if last == 0 {
+			last = 1
+		}
+		for k := 0; k < gor; k++ {
+			sg.Add(1)
+			go func() {
+				defer sg.Done()
+				defer func() {
+					if p := recover(); p != nil {
+						x.note("nack-handler-panicked panic:" + strings.ReplaceAll(fmt.Sprint(p), " ", "_"))
+					}
+				}()
+				for {
+					select {
+					case <-stopStorm:
+						return
+					default:
+					}
+					sid, _ := cur.Load().(string)
+					if sid == "" {
+						runtime.Gosched()
+						continue
+					}
+					nctx := metadata.NewIncomingContext(context.Background(), metadata.Pairs("session-id", sid))
+					x.p.NegativeAcknowledge(nctx, &rproto.Nack{MissingFromSequence: last})
+				}
+			}()
+		}
+		done := 0
+		for c := 0; c < cycles; c++ {
+			s := &rsStream{id: fmt.Sprintf("flap%d", c), mode: "ok", addr: "flap:1", header: make(chan metadata.MD, 1), ackCh: make(chan uint64, 64), finished: make(chan struct{})}
+			s.ctx, s.cancel = context.WithCancel(context.Background())
+			go func() {
+				defer close(s.finished)
+				defer func() { recover() }()
+				x.p.StreamWAL(&rproto.WALStreamRequest{StartSequence: last + 1, ListenerAddress: s.addr}, s)
+			}()
+			select {
+			case md := <-s.header:
+				if ids := md.Get("session-id"); len(ids) > 0 {
+					cur.Store(ids[0])
+				}
+			case <-time.After(patience(5 * time.Second)):
+				close(stopStorm)
+				x.bad = append(x.bad, "blocked op=stream-register")
+				return "blocked op=stream-register"
+			}
+			time.Sleep(time.Duration(50+c%7*30) * time.Microsecond)
+			s.cancel()
+			select {
+			case <-s.finished:
+			case <-time.After(patience(5 * time.Second)):
+				close(stopStorm)
+				x.bad = append(x.bad, "blocked op=stream-end")
+				return "blocked op=stream-end"
+			}
+			done++
+			x.badMu.Lock()
+			nb := len(x.bad)
+			x.badMu.Unlock()
+			if nb > 0 {
+				break
+			}
+		}
+		close(stopStorm)
+		sg.Wait()
+		return fmt.Sprintf("ok cycles=%d", done)
 	case "setsend":
 		s := x.streams[ws[1]]
 		if s == nil {
